@@ -181,10 +181,12 @@ def _run_shard(arg):
     rep = Report(_SHARD_PROP)
     try:
         _SHARD_FN(rep, arg)
-    except HarnessError:
-        raise
-    except BaseException:   # library exceptions derive from BaseException
-        return {"harness_error": f"shard {repr(arg)[:200]}: " + traceback.format_exc()}
+    except BaseException:   # library exceptions derive from BaseException; HarnessError included: a shard that
+        # breaks (a replay that diverges because a change made the library nondeterministic, say) keeps what it had
+        # found and never takes the other shards' findings with it
+        out = rep.export()
+        out["harness_error"] = f"shard {repr(arg)[:200]}: " + traceback.format_exc()[-1500:]
+        return out
     return rep.export()
 
 
@@ -209,9 +211,9 @@ def run_shards(report, fn, shard_args, nproc=None, fresh_process=False, shard_ti
     errors = []
     for r in results:
         if "harness_error" in r:
-            errors.append(r["harness_error"])
-            continue
-        report.merge(r)
+            errors.append(r.pop("harness_error"))
+        if r:
+            report.merge(r)
     if errors:
         # a broken shard never hides what the other shards found: violations are still reported (exit 1);
         # without violations the run is a harness error (exit 2), never a pass
